@@ -101,11 +101,17 @@ CHECKS.update({
                      'lighter by more than 1e-9 in exact arithmetic. Abstract counterexamples are only reported after a replay on the real double build '
                      '(property evaluated in exact rational arithmetic); otherwise counted as undecided. mcb_sva_iso_trees is a listed known finding.',
                 tech='symbolic execution under an abstract rounding model in QF_LRA; counterexamples concretised on the real double build'),
-    'C10': dict(cat='model_checking', ref='DESIGN.md §6 C10',
-                text='VALIDATOR clause only: has_loops/has_multiple_edges/has_non_positive_weights on every multigraph on <=3 vertices (loops, multiplicity <=2) '
-                     'with weights symbolic reals of any sign; z3 proves true <=> some weight <= 0. The reader clause is not decided (cbmc gave no verdict on '
-                     'the IR-derived reader unit within budget) and is outside the claim.',
-                tech='fork-based symbolic execution + z3 obligations (validators); reader unit lowered to C but undecided'),
+    'C10': dict(cat='model_checking', ref='DESIGN.md §6 C10, §11.1',
+                text='Validators (both tiers): has_loops/has_multiple_edges/has_non_positive_weights on every multigraph on <=3 vertices (loops, multiplicity '
+                     '<=2) with weights symbolic reals of any sign; z3 proves true <=> some weight <= 0. Reader (thorough tier only, ~15 min, 8 GB): '
+                     'read_dimacs_from_file<RecGraph> lowered from clang IR to C and checked by CBMC on a symbolic file produced by a bounded grammar '
+                     '(optional comment lines, p line with N in 1..3, one edge line with symbolic endpoints 0..4, weight absent/1 digit/2 digits/D.D, symbolic '
+                     'final newline): vertex count, edge list, weights, error iff undeclared vertex.',
+                tech='fork-based symbolic execution + z3 (validators); clang IR -> C -> CBMC with C models of fgets/strlen/sscanf (reader, thorough tier)',
+                note='Trusted for the reader: the fgets/strlen/sscanf C models, the array-map and exception-type stubs substituted for std::map / '
+                     'std::system_error construction (ir2c/wrap/w_c10.cpp), ir2c.py (differential run against the real reader on 400 seeded files per run). '
+                     'CBMC pointer-overflow checks are off for this unit (symbolic execution does not finish with them). The quick tier decides the '
+                     'validator clause only.'),
 })
 
 NOT_APPLICABLE = {
